@@ -62,6 +62,83 @@ def arm_blocks(body, sw, target, all_targets):
     return [b for b in r if b not in joined]
 
 
+def _aligned_shape(body, e):
+    """Item shape of an iterator expression (origin tree) whose k-th item belongs to slot k: `slice::iter(arg:X)` (or the slice argument itself, handed to an
+    IntoIterator parameter) yields X[0], X[1], … in order; `zip` pairs the k-th items of both sides and ends with the shorter one; `enumerate` numbers the items from 0.
+    Returns (shape, [calls of the adaptor chain]) with shape = ('slot', 'X') | ('idx',) | ('pair', a, b); None when anything else takes part (skip, rev, filter,
+    step_by, chain, take, a range, a collection that is not a slice parameter …): nothing is concluded about which slot an item belongs to."""
+    if e[0] == 'arg' and re.match(r'^&\[.*\]$', body.locals[e[1]] or ''):
+        return ('slot', e[2]), []
+    if e[0] != 'call' or len(e) < 4 or e[3] is None:
+        return None
+    c = e[3]
+    if c.orig == 'core::slice::iter' and len(e[2]) == 1 and e[2][0][0] == 'arg' and re.match(r'^&\[.*\]$', body.locals[e[2][0][1]] or ''):
+        return ('slot', e[2][0][2]), [c]
+    if c.orig == 'core::iter::traits::iterator::Iterator::zip' and len(e[2]) == 2:
+        a, b = _aligned_shape(body, e[2][0]), _aligned_shape(body, e[2][1])
+        return (('pair', a[0], b[0]), a[1] + b[1] + [c]) if a and b else None
+    if c.orig == 'core::iter::traits::iterator::Iterator::enumerate' and len(e[2]) == 1:
+        a = _aligned_shape(body, e[2][0])
+        return (('pair', ('idx',), a[0]), a[1] + [c]) if a else None
+    return None
+
+
+def _shape_leaves(s):
+    return [s] if s[0] != 'pair' else _shape_leaves(s[1]) + _shape_leaves(s[2])
+
+
+def _mentions_iterator(x, nxc, chain):
+    """Does the origin tree x hold the iterator built by the adaptor calls `chain` itself (not an item the `next` call nxc took out of it)?"""
+    t = x[0]
+    if t == 'call':
+        if len(x) > 3 and x[3] is nxc:
+            return False
+        if len(x) > 3 and x[3] in chain:
+            return True
+        return any(_mentions_iterator(a, nxc, chain) for a in x[2])
+    if t in ('field', 'index', 'downcast', 'discr', 'cast', 'set'):
+        return _mentions_iterator(x[1], nxc, chain)
+    if t == 'bin':
+        return _mentions_iterator(x[2], nxc, chain) or _mentions_iterator(x[3], nxc, chain)
+    if t == 'un':
+        return _mentions_iterator(x[2], nxc, chain)
+    if t == 'agg':
+        return any(_mentions_iterator(a, nxc, chain) for a in x[2])
+    if t == 'phi':
+        return any(_mentions_iterator(a, nxc, chain) for a in x[1])
+    return False
+
+
+def _aligned_next(body, e):
+    """e = the result of `Iterator::next` on an aligned iterator (above): (the next call, item shape, chain calls); None otherwise."""
+    if e[0] != 'call' or len(e) < 4 or e[3] is None or e[3].orig != 'core::iter::traits::iterator::Iterator::next' or len(e[2]) != 1:
+        return None
+    sh = _aligned_shape(body, e[2][0])
+    return (e[3], sh[0], sh[1]) if sh else None
+
+
+def _aligned_item(body, e):
+    """e = a component of the item bound by `Some(item) = it.next()` (tuple projections of the Some payload; an integer widening `as` on top is looked through):
+    (the next call, the leaf shape that component is); None otherwise."""
+    while e[0] == 'cast':
+        e = e[1]
+    path = []
+    while e[0] == 'field' and re.match(r'^\.\d+$', e[2]):
+        path.append(int(e[2][1:]))
+        e = e[1]
+    if not (e[0] == 'field' and e[2].endswith('Option::Some.0') and e[1][0] == 'downcast' and e[1][2] == 'Some'):
+        return None
+    nx = _aligned_next(body, e[1][1])
+    if not nx:
+        return None
+    sh = nx[1]
+    for k in reversed(path):
+        if sh[0] != 'pair' or k > 1:
+            return None
+        sh = sh[1 + k]
+    return nx[0], sh
+
+
 def maintenance_pairing(ctx, prog, rid):
     """Every HnswBackend function that writes DocumentStore.metadata / .internal_to_external reaches the inverted-index maintenance on every path to a normal
     return.  Shared: C11.R2 (filter answers agree with the reference predicate) and C10.R9 (a filter-resolved id set names the documents that were filtered —
@@ -655,14 +732,63 @@ def run(ctx, prog):
         if len(ic) != 1:
             ctx.missing('C11.R4', 'rebuild_from: exactly one insert_doc call (found %d)' % len(ic))
         else:
-            must = [p for i_, blk in enumerate(rb.blocks) if blk['t']['k'] == 'switch' and i_ in rb.live_blocks() for tg, p in flow.switch_edge_predicates(rb, i_, ro)
-                    if ic[0].bb not in rb.reach([0], avoid_edges=[(i_, tg)])]
+            must_e = [(i_, tg, p) for i_, blk in enumerate(rb.blocks) if blk['t']['k'] == 'switch' and i_ in rb.live_blocks() for tg, p in flow.switch_edge_predicates(rb, i_, ro)
+                      if ic[0].bb not in rb.reach([0], avoid_edges=[(i_, tg)])]
+            must = [p for _, _, p in must_e]
             allowed = [r'^variant\(range::next\(range::Range::Range\{0, cmp::min\(slice::len\(arg:metadata\), slice::len\(arg:alive\)\)\}\)\) = Some$',
                        r'^!bool\[Option::is_none\(arg:alive\[\]\)\]$', r'^bool\[Option::is_some\(arg:alive\[\]\)\]$', r'^variant\(arg:alive\[\]\) = Some$']
             extra = [p for p in must if not any(re.match(a, p) for a in allowed)]
             args = [flow.render(ro.of_operand(a)) for a in ic[0].args[1:]]
-            ctx.inst('C11.R4', rb.short, 'every live slot is indexed: the only skip is the tombstone test', len(must) >= 2 and not extra and args[1:] == ['arg:metadata[]'],
-                     ('additional skip condition(s): %s' % [e[:90] for e in extra]) if extra else 'guards: %s; insert_doc(%s)' % ([m[:50] for m in must], ', '.join(a[:40] for a in args)))
+            ok4 = len(must) >= 2 and not extra and args[1:] == ['arg:metadata[]']
+            det4 = ('additional skip condition(s): %s' % [e[:90] for e in extra]) if extra else 'guards: %s; insert_doc(%s)' % ([m[:50] for m in must], ', '.join(a[:40] for a in args))
+            if not ok4:
+                # the same walk written with iterators instead of indices — `for (doc_id, (map, owner)) in metadata.iter().zip(alive.iter()).enumerate()`: zip ends
+                # with the shorter slice (= min of the two lengths), the k-th item pairs metadata[k] with alive[k], enumerate gives k.  Accepted when ONE `next` call
+                # on such an aligned iterator over exactly {position, metadata, alive} feeds everything: its Some edge is the loop guard, the only other condition
+                # in front of insert_doc is the tombstone test on the alive component, insert_doc gets the position and the metadata component, and nothing else
+                # advances the iterator (a second next / nth / skip on it would shift the slots)
+                guards, nexts, unrec = {'loop': [], 'tomb': []}, [], []
+                for i_, tg, p in must_e:
+                    e_ = ro.of_operand(rb.blocks[i_]['t']['on'])
+                    kind = None
+                    if e_[0] == 'discr' and p.endswith(' = Some'):
+                        nx = _aligned_next(rb, e_[1])
+                        it = _aligned_item(rb, e_[1])
+                        if nx:
+                            kind, who = 'loop', nx
+                        elif it and it[1] == ('slot', 'alive'):
+                            kind, who = 'tomb', it
+                    elif rb.blocks[i_]['t'].get('onty') == 'bool' and (p.startswith('!bool[Option::is_none(') or p.startswith('bool[Option::is_some(')):
+                        while e_[0] == 'un' and e_[1] == 'Not':
+                            e_ = e_[2]
+                        if e_[0] == 'call' and len(e_) > 3 and e_[3] is not None and e_[3].orig in ('core::option::Option::is_none', 'core::option::Option::is_some') and len(e_[2]) == 1:
+                            it = _aligned_item(rb, e_[2][0])
+                            if it and it[1] == ('slot', 'alive'):
+                                kind, who = 'tomb', it
+                    if kind is None:
+                        unrec.append(p)
+                    else:
+                        guards[kind].append(who)
+                        nexts.append(who[0])
+                ia = [_aligned_item(rb, ro.of_operand(a)) for a in ic[0].args[1:]]
+                if len(guards['loop']) == 1 and guards['tomb'] and not unrec and len(ia) == 2 and all(ia):
+                    nxc, shape, chain = guards['loop'][0]
+                    nexts += [ia[0][0], ia[1][0]]
+                    leaves = sorted(_shape_leaves(shape))
+                    others = []
+                    for c_ in rb.calls:
+                        if c_ is nxc or c_ in chain or c_.bb not in rb.live_blocks() or rb.is_cleanup(c_.bb) or flow._is_transparent(c_):
+                            continue
+                        if any(_mentions_iterator(ro.of_operand(a), nxc, chain) for a in c_.args):
+                            others.append('%s at %s' % (flow.short(c_.callee or '<indirect>'), c_.loc))
+                    ok4 = (all(n is nxc for n in nexts) and leaves == sorted([('idx',), ('slot', 'alive'), ('slot', 'metadata')])
+                           and ia[0][1] == ('idx',) and ia[1][1] == ('slot', 'metadata') and not others)
+                    if ok4:
+                        det4 = 'one aligned iterator %s: loop guard, tombstone test on the alive component, insert_doc(position, metadata component)' % (
+                            flow.render(ro.of_operand(nxc.args[0]))[:120])
+                    elif others:
+                        det4 = 'the zipped iterator is also advanced / consumed by %s' % others[:3]
+            ctx.inst('C11.R4', rb.short, 'every live slot is indexed: the only skip is the tombstone test', ok4, det4)
         users = sorted(set(c.body.short.split('::{')[0].split('::')[-1] for c in prog.callers_of('MetadataInvertedIndex::rebuild_from')))
         ctx.inst('C11.R4', rb.short, 'used by construction, recovery and tombstone compaction', set(users) >= {'recover_with_hnsw_params_and_mode', 'compact_tombstones'}, 'callers: %s' % users)
     # ------------------------------------------------------------------ R5 index keys order like the numbers they stand for (finite table)
